@@ -847,7 +847,10 @@ class Builder:
         rec = {'function': frame.fn.cname, 'pre': pre, 'post': post, 'cond_after_body': cond}
         if exit_if is not None:
             rec['exit_test_after_body'] = frame.ev(exit_if[1], pc)
-            rec['locals'] = {k: c.v for k, c in frame.env.items() if isinstance(c.v, str)}
+        else:
+            # while (c) body / do body while (c): the loop is left after a body execution when c no longer holds
+            rec['exit_test_after_body'] = lnot(cond)
+        rec['locals'] = {k: c.v for k, c in frame.env.items() if isinstance(c.v, str)}
         self.loop_records.append(rec)
         self.note('while loop in %s summarised as a fixed-point iteration (partial correctness; termination and tolerance not decided)' % frame.fn.cname)
         return pc
